@@ -408,6 +408,7 @@ func first(a, _ []byte) []byte { return a }
 //@     invariant forall(x, 0, 256, n48.keys[x] <= 48 && implies(n48.keys[x] != 0, n48.children[n48.keys[x]-1].pointer != nil))
 //@     invariant forall(j, 0, 16, implies(j < children, n16.keys[j] < i && n48.keys[n16.keys[j]] != 0 && cntNZ(n48.keys, n16.keys[j]) == j && n16.children[j].pointer == n48.children[n48.keys[n16.keys[j]]-1].pointer && n16.children[j].tag == n48.children[n48.keys[n16.keys[j]]-1].tag))
 //@     invariant forall(x, 0, 256, implies(x < i && n48.keys[x] != 0, n16.keys[cntNZ(n48.keys, x)] == x))
+//@     invariant forall(j, 0, 15, implies(j + 1 < children, n16.keys[j] < n16.keys[j+1]))
 //@     decreases 256 - i
 
 //@ func (*node16).deleteChild
